@@ -156,6 +156,22 @@ def main():
     t3 = engine.explore(make_spec(MOD, "ToyLockOrder"), bound=1, merge=False, recheck=0)
     _expect(any(x["oracle"] == "TOY.deadlock" for v in t3.violations for x in v["violations"]), "lock-order inversion reported as deadlock", fails)
 
+    print("real-backend layer:")
+    from .simnet import fakeos
+    fakeos.install()
+    import httpcore._backends.sync as bs
+    spec = make_spec("mc.props.backends", "BackendHarness", runtime="sync", ct="h11")
+    clean = engine.explore(spec, bound=1, recheck=0)
+    _expect(not clean.violations and clean.evaluations > 5, f"the real SyncBackend over the OS-level fakes: {clean.evaluations} executions, no violation", fails)
+    orig = bs.ReadTimeout
+    bs.ReadTimeout = bs.WriteTimeout          # planted bug: recv() timeouts mapped to the wrong class
+    try:
+        planted = engine.explore(spec, bound=1, recheck=0)
+    finally:
+        bs.ReadTimeout = orig
+    _expect(any(x["oracle"] == "C15.wrong-class" for v in planted.violations for x in v["violations"]),
+            "a planted wrong exception mapping in the sync backend is reported (C15.wrong-class)", fails)
+
     print("fingerprints:")
 
     class N:
